@@ -132,9 +132,9 @@ Qed.
 
 (* ------------------------------------------------------------------ stage 2: header line, comments, one transaction *)
 (* the lines of one transaction without the closing empty line *)
-Definition eq_body (md : list (list (list N))) (e : eq_txn) : list (list N) :=
+Definition eq_body (md : list (list (list N))) (warn : list (list N)) (e : eq_txn) : list (list N) :=
   (print_ts (e_inst e) (e_off e) ++ [32; 39]%N ++ eq_desc e)
-  :: map comment_line (eq_comments md e) ++ map eq_post_line (eq_all_posts e).
+  :: map comment_line (eq_comments md warn e) ++ map eq_post_line (eq_all_posts e).
 
 Lemma eq_md_lines_comments md : eq_md_lines md = map comment_line (eq_md_comments md).
 Proof.
@@ -142,12 +142,12 @@ Proof.
   cbn [flat_map]. rewrite map_app, IH. unfold eq_md_item. rewrite map_app. reflexivity.
 Qed.
 
-Lemma eq_txn_lines_body md e : eq_txn_lines md e = eq_body md e ++ [[]].
+Lemma eq_txn_lines_body md warn e : eq_txn_lines md warn e = eq_body md warn e ++ [[]].
 Proof.
   unfold eq_txn_lines, eq_body, eq_hdr_str, eq_comments, eq_all_posts.
   rewrite eq_md_lines_comments. cbn [app]. f_equal.
   rewrite !map_app, <- !app_assoc. f_equal.
-  assert (Hw : (if e_warn e then eq_warning_lines else []) = map comment_line (if e_warn e then eq_warnings else [])).
+  assert (Hw : (if e_warn e then eq_warn_lines warn else []) = map comment_line (if e_warn e then warn else [])).
   { destruct (e_warn e); reflexivity. }
   rewrite Hw. f_equal. f_equal. destruct (e_bal e); reflexivity.
 Qed.
@@ -160,8 +160,8 @@ Lemma parse_meta_none rest :
   parse_meta rest None None None = Some (None, None, None, rest).
 Proof. intro H. destruct rest as [|l r]; [reflexivity|]. cbn [parse_meta]. rewrite H. reflexivity. Qed.
 
-Theorem eq_chunk_roundtrip cfg md e : eq_txn_wf e = true ->
-  parse_chunk cfg (eq_body md e) = Some (eq_ptxn md e).
+Theorem eq_chunk_roundtrip cfg md warn e : eq_txn_wf e = true ->
+  parse_chunk cfg (eq_body md warn e) = Some (eq_ptxn md warn e).
 Proof.
   intro Hwf. destruct (eq_txn_wf_inv e Hwf) as (Hts & _ & _ & Hne & Hps).
   unfold eq_body, parse_chunk.
@@ -169,10 +169,10 @@ Proof.
   destruct (eq_all_posts e) as [|p ps] eqn:Eps; [congruence|].
   cbn [forallb] in Hps. apply andb_true_iff in Hps as [Hp Hps'].
   rewrite parse_meta_none.
-  2:{ destruct (eq_comments md e) as [|c cs]; cbn [map app].
+  2:{ destruct (eq_comments md warn e) as [|c cs]; cbn [map app].
       - apply eq_post_line_not_meta, Hp.
       - apply parse_meta_line_comment. }
-  rewrite (parse_comments_block (eq_comments md e) (map eq_post_line (p :: ps))).
+  rewrite (parse_comments_block (eq_comments md warn e) (map eq_post_line (p :: ps))).
   2:{ cbn [map]. apply eq_post_line_not_comment, Hp. }
   rewrite (parse_postings_eq (p :: ps)) by (cbn [forallb]; rewrite Hp, Hps'; reflexivity).
   cbn [map is_nil]. unfold eq_ptxn, eq_header. rewrite Eps. reflexivity.
@@ -207,19 +207,22 @@ Proof.
   apply andb_true_iff in H as [Hit Hmd]. rewrite !forallb_app, Hit, (IH Hmd). reflexivity.
 Qed.
 
-Lemma eq_comments_no_eol md e : md_wf md = true -> forallb no_eol (eq_comments md e) = true.
+Lemma warn_wf_inv warn : warn_wf warn = true -> forallb no_eol warn = true.
+Proof. unfold warn_wf, md_wf. cbn [forallb]. rewrite andb_true_r. intro H. exact H. Qed.
+
+Lemma eq_comments_no_eol md warn e : md_wf md = true -> warn_wf warn = true -> forallb no_eol (eq_comments md warn e) = true.
 Proof.
-  intro H. unfold eq_comments. rewrite forallb_app, (eq_md_comments_no_eol md H).
-  destruct (e_warn e); reflexivity.
+  intros H Hw. unfold eq_comments. rewrite forallb_app, (eq_md_comments_no_eol md H).
+  destruct (e_warn e); [exact (warn_wf_inv warn Hw)|reflexivity].
 Qed.
 
-Lemma eq_body_hygiene md e : md_wf md = true -> eq_txn_wf e = true ->
-  forallb no_eol (eq_body md e) = true /\ forallb (fun l => negb (is_blank l)) (eq_body md e) = true
-  /\ eq_body md e <> [].
+Lemma eq_body_hygiene md warn e : md_wf md = true -> warn_wf warn = true -> eq_txn_wf e = true ->
+  forallb no_eol (eq_body md warn e) = true /\ forallb (fun l => negb (is_blank l)) (eq_body md warn e) = true
+  /\ eq_body md warn e <> [].
 Proof.
-  intros Hmd Hwf. destruct (eq_txn_wf_inv e Hwf) as (_ & Hc & Hu & _ & Hps).
+  intros Hmd Hwarn Hwf. destruct (eq_txn_wf_inv e Hwf) as (_ & Hc & Hu & _ & Hps).
   unfold eq_body. cbn [forallb]. rewrite !forallb_app.
-  destruct (comment_lines_hygiene _ (eq_comments_no_eol md e Hmd)) as [C1 C2]. rewrite C1, C2.
+  destruct (comment_lines_hygiene _ (eq_comments_no_eol md warn e Hmd Hwarn)) as [C1 C2]. rewrite C1, C2.
   assert (H1 : no_eol (print_ts (e_inst e) (e_off e) ++ [32; 39]%N ++ eq_desc e) = true).
   { rewrite !no_eol_app, print_ts_no_eol, (eq_desc_no_eol e Hc Hu). reflexivity. }
   assert (H1b : is_blank (print_ts (e_inst e) (e_off e) ++ [32; 39]%N ++ eq_desc e) = false).
@@ -275,38 +278,39 @@ Proof.
   destruct chs as [|ch chs']; [congruence|]. rewrite Hm. reflexivity.
 Qed.
 
-Lemma print_equity_blocks md es : print_equity md es = unlines (blocks_lines (map (eq_body md) es)).
+Lemma print_equity_blocks md warn es : print_equity md warn es = unlines (blocks_lines (map (eq_body md warn) es)).
 Proof.
   unfold print_equity, unlines. f_equal. f_equal. unfold eq_lines, blocks_lines.
   induction es as [|e es IH]; [reflexivity|]. cbn [flat_map map]. rewrite IH, eq_txn_lines_body. reflexivity.
 Qed.
 
-Lemma export_wf_inv md es : export_wf md es = true -> md_wf md = true /\ forall e, In e es -> eq_txn_wf e = true.
+Lemma export_wf_inv md warn es : export_wf md warn es = true ->
+  md_wf md = true /\ warn_wf warn = true /\ forall e, In e es -> eq_txn_wf e = true.
 Proof.
-  unfold export_wf. intro H. apply andb_true_iff in H as [H1 H2]. split; [exact H1|].
-  rewrite forallb_forall in H2. exact H2.
+  unfold export_wf. intro H. apply andb_true_iff in H as [H H2]. apply andb_true_iff in H as [H1 Hw].
+  split; [exact H1|]. split; [exact Hw|]. rewrite forallb_forall in H2. exact H2.
 Qed.
 
 (* STAGE 3: the text of a well-formed, non-empty export is a journal of the grammar; it is read
    as exactly one syntax-level transaction per exported commodity *)
-Theorem parse_export cfg md es : es <> [] -> export_wf md es = true ->
-  parse_journal cfg (print_equity md es) = Ok (map (eq_ptxn md) es).
+Theorem parse_export cfg md warn es : es <> [] -> export_wf md warn es = true ->
+  parse_journal cfg (print_equity md warn es) = Ok (map (eq_ptxn md warn) es).
 Proof.
-  intros Hne Hwf. destruct (export_wf_inv md es Hwf) as [Hmd Hes].
+  intros Hne Hwf. destruct (export_wf_inv md warn es Hwf) as (Hmd & Hwarn & Hes).
   rewrite print_equity_blocks. apply parse_journal_blocks.
   - destruct es; [congruence|discriminate].
-  - intros ch Hch. apply in_map_iff in Hch as (e & <- & He). apply eq_body_hygiene; [exact Hmd|apply Hes, He].
+  - intros ch Hch. apply in_map_iff in Hch as (e & <- & He). apply eq_body_hygiene; [exact Hmd|exact Hwarn|apply Hes, He].
   - apply mapO_map. intros e He. apply eq_chunk_roundtrip, Hes, He.
 Qed.
 
 (* the syntax read from the text is the raw transaction C10 speaks about *)
-Lemma eq_ptxn_raw md e : ptxn_raw (eq_ptxn md e) = eq_raw_txn e.
+Lemma eq_ptxn_raw md warn e : ptxn_raw (eq_ptxn md warn e) = eq_raw_txn e.
 Proof.
   unfold ptxn_raw, eq_ptxn, eq_raw_txn. cbn [pt_posts pt_last option_map]. rewrite map_map. reflexivity.
 Qed.
 
 (* nothing is written for an empty balance; the empty text is not a journal *)
-Lemma empty_export cfg md : print_equity md [] = [] /\ parse_journal cfg [] = Err E_syntax.
+Lemma empty_export cfg md warn : print_equity md warn [] = [] /\ parse_journal cfg [] = Err E_syntax.
 Proof. split; reflexivity. Qed.
 
 (* the description is read back unchanged unless the commodity name ends in white space *)
@@ -414,28 +418,28 @@ Lemma combine_none (l : list posting) (m : list eq_post) (g : eq_post -> posting
   = map (fun p => mkJPost (g p) None) m.
 Proof. intros ->. induction m as [|p m IH]; [reflexivity|]. cbn [map combine fst snd]. rewrite IH. reflexivity. Qed.
 
-Lemma accept_eq_ptxn md e : accept_txn (eq_raw_txn e) = Ok (map eq_posting (eq_all_posts e)) ->
-  accept_ptxn (eq_ptxn md e) = Ok (eq_jtxn md e).
+Lemma accept_eq_ptxn md warn e : accept_txn (eq_raw_txn e) = Ok (map eq_posting (eq_all_posts e)) ->
+  accept_ptxn (eq_ptxn md warn e) = Ok (eq_jtxn md warn e).
 Proof.
   intro Ha. unfold accept_ptxn. rewrite eq_ptxn_raw, Ha. cbn [res_bind].
   unfold ptxn_comments, eq_ptxn. cbn [pt_posts pt_last pt_hdr]. rewrite app_nil_r, map_map. cbn [snd].
   rewrite (combine_none _ (eq_all_posts e) eq_posting eq_refl). reflexivity.
 Qed.
 
-Theorem load_export cfg md es : es <> [] -> export_wf md es = true ->
+Theorem load_export cfg md warn es : es <> [] -> export_wf md warn es = true ->
   (forall e, In e es -> accept_txn (eq_raw_txn e) = Ok (map eq_posting (eq_all_posts e))) ->
-  load_journal cfg (print_equity md es) = Ok (sort_by jtxn_leb (map (eq_jtxn md) es)).
+  load_journal cfg (print_equity md warn es) = Ok (sort_by jtxn_leb (map (eq_jtxn md warn) es)).
 Proof.
-  intros Hne Hwf Hacc. unfold load_journal. rewrite (parse_export cfg md es Hne Hwf). cbn [res_bind].
-  assert (Hm : mapM accept_ptxn (map (eq_ptxn md) es) = Ok (map (eq_jtxn md) es)).
+  intros Hne Hwf Hacc. unfold load_journal. rewrite (parse_export cfg md warn es Hne Hwf). cbn [res_bind].
+  assert (Hm : mapM accept_ptxn (map (eq_ptxn md warn) es) = Ok (map (eq_jtxn md warn) es)).
   { clear Hne Hwf. induction es as [|e es IH]; [reflexivity|]. cbn [map mapM].
-    rewrite (accept_eq_ptxn md e (Hacc e (or_introl eq_refl))).
+    rewrite (accept_eq_ptxn md warn e (Hacc e (or_introl eq_refl))).
     rewrite IH by (intros e' He'; apply Hacc; right; exact He'). reflexivity. }
   rewrite Hm. reflexivity.
 Qed.
 
 (* ------------------------------------------------------------------ stage 5: composition with C10 *)
-Lemma jtxns_bposts_eq md es : jtxns_bposts (map (eq_jtxn md) es) = eq_bposts es.
+Lemma jtxns_bposts_eq md warn es : jtxns_bposts (map (eq_jtxn md warn) es) = eq_bposts es.
 Proof.
   unfold jtxns_bposts, eq_bposts. induction es as [|e es IH]; [reflexivity|]. cbn [map flat_map].
   rewrite IH. f_equal. unfold eq_jtxn. cbn [jt_posts]. rewrite map_map. reflexivity.
@@ -447,17 +451,17 @@ Proof. intros Hp H k. rewrite (c10_spec_own_perm eps eps' k Hp). apply H. Qed.
 (* the equity export TEXT of a well-formed source, loaded as a journal: accepted, and the own
    sums of the loaded transactions are the selected balances of the source, the equity account
    absorbing minus the total of each commodity *)
-Theorem text_carries_balances cfg known eqa ras ts es md :
-  txns_wf ts -> equity known eqa ras ts = Some es -> es <> [] -> export_wf md es = true ->
-  exists jts, load_journal cfg (print_equity md es) = Ok jts /\ TextCarries eqa ras md ts es jts.
+Theorem text_carries_balances cfg known eqa ras ts es md warn :
+  txns_wf ts -> equity known eqa ras ts = Some es -> es <> [] -> export_wf md warn es = true ->
+  exists jts, load_journal cfg (print_equity md warn es) = Ok jts /\ TextCarries eqa ras md warn ts es jts.
 Proof.
   intros Hwf He Hne Hexp.
-  exists (sort_by jtxn_leb (map (eq_jtxn md) es)). split.
+  exists (sort_by jtxn_leb (map (eq_jtxn md warn) es)). split.
   - apply load_export; [exact Hne|exact Hexp|].
     intros e Hin. apply (c10_equity_accept known eqa ras ts es Hwf He e Hin).
   - split; [reflexivity|].
     apply (carried_perm eqa ras _ (eq_bposts es)); [|apply (equity_carry known eqa ras ts es Hwf He)].
-    rewrite <- (jtxns_bposts_eq md es). unfold jtxns_bposts. apply Permutation_flat_map. apply sort_by_perm.
+    rewrite <- (jtxns_bposts_eq md warn es). unfold jtxns_bposts. apply Permutation_flat_map. apply sort_by_perm.
 Qed.
 
 (* ------------------------------------------------------------------ stage 5b: the export of a well-formed source is well formed *)
@@ -477,12 +481,12 @@ Proof.
   exfalso. apply NZ. apply spec_own_notin. exact H.
 Qed.
 
-Theorem export_wf_of_source known eqa ras ts es md :
+Theorem export_wf_of_source known eqa ras ts es md warn :
   txns_wf ts -> forallb src_txn_ok ts = true -> eq_acct_ok eqa = true ->
-  equity known eqa ras ts = Some es -> amounts_fit es = true -> md_wf md = true ->
-  export_wf md es = true.
+  equity known eqa ras ts = Some es -> amounts_fit es = true -> md_wf md = true -> warn_wf warn = true ->
+  export_wf md warn es = true.
 Proof.
-  intros Hwf Hsrc Heqa H Hfit Hmd. unfold export_wf. rewrite Hmd. cbn [andb].
+  intros Hwf Hsrc Heqa H Hfit Hmd Hwarn. unfold export_wf. rewrite Hmd, Hwarn. cbn [andb].
   destruct (c10_equity_open known eqa ras ts es H) as (rows0 & Hb & Hcase).
   destruct (c10_rows_facts known ts rows0 Hwf Hb) as (Hown & Hdwf & Hs & Hn & Hk).
   destruct Hcase as [[Er Ee]|(lt & Hl & Ee)]; [subst es; reflexivity|].
@@ -522,14 +526,14 @@ Qed.
 
 (* the composed statement on the source: the hypotheses are those of a loaded journal plus the
    decimal domain of the written amounts *)
-Theorem text_carries_balances_src cfg known eqa ras ts es md :
+Theorem text_carries_balances_src cfg known eqa ras ts es md warn :
   txns_wf ts -> forallb src_txn_ok ts = true -> eq_acct_ok eqa = true ->
-  equity known eqa ras ts = Some es -> es <> [] -> amounts_fit es = true -> md_wf md = true ->
-  exists jts, load_journal cfg (print_equity md es) = Ok jts /\ TextCarries eqa ras md ts es jts.
+  equity known eqa ras ts = Some es -> es <> [] -> amounts_fit es = true -> md_wf md = true -> warn_wf warn = true ->
+  exists jts, load_journal cfg (print_equity md warn es) = Ok jts /\ TextCarries eqa ras md warn ts es jts.
 Proof.
-  intros Hwf Hsrc Heqa He Hne Hfit Hmd.
-  apply (text_carries_balances cfg known eqa ras ts es md Hwf He Hne).
-  apply (export_wf_of_source known eqa ras ts es md Hwf Hsrc Heqa He Hfit Hmd).
+  intros Hwf Hsrc Heqa He Hne Hfit Hmd Hwarn.
+  apply (text_carries_balances cfg known eqa ras ts es md warn Hwf He Hne).
+  apply (export_wf_of_source known eqa ras ts es md warn Hwf Hsrc Heqa He Hfit Hmd Hwarn).
 Qed.
 
 (* ------------------------------------------------------------------ witnesses *)
@@ -553,7 +557,8 @@ Definition t02_ex_text_all : list N :=
   [49; 57; 55; 48; 45; 48; 49; 45; 48; 49; 84; 48; 48; 58; 48; 48; 58; 48; 48; 46; 48; 48; 48; 48; 48; 48; 48; 51; 43; 48; 48; 58; 48; 48; 32; 39; 69; 113; 117; 105; 116; 121; 58; 32; 108; 97; 115; 116; 32; 116; 120; 110; 32; 40; 117; 117; 105; 100; 41; 58; 32; 51; 51; 51; 51; 51; 51; 51; 51; 45; 51; 51; 51; 51; 45; 52; 51; 51; 51; 45; 56; 51; 51; 51; 45; 51; 51; 51; 51; 51; 51; 51; 51; 51; 51; 51; 51; 10; 32; 32; 32; 59; 32; 84; 120; 110; 32; 83; 101; 116; 32; 67; 104; 101; 99; 107; 115; 117; 109; 10; 32; 32; 32; 59; 32; 32; 32; 32; 32; 32; 32; 32; 32; 83; 72; 65; 45; 50; 53; 54; 32; 58; 32; 102; 48; 52; 97; 51; 57; 53; 100; 53; 101; 52; 57; 55; 102; 50; 98; 97; 55; 55; 98; 100; 49; 55; 99; 50; 49; 98; 100; 49; 54; 55; 99; 56; 98; 51; 98; 51; 102; 57; 52; 51; 55; 57; 101; 99; 101; 102; 52; 53; 50; 98; 99; 57; 100; 98; 52; 52; 48; 100; 48; 102; 98; 98; 51; 10; 32; 32; 32; 59; 32; 32; 32; 32; 32; 32; 32; 32; 83; 101; 116; 32; 115; 105; 122; 101; 32; 58; 32; 51; 10; 32; 32; 32; 59; 32; 10; 32; 32; 32; 59; 32; 65; 99; 99; 111; 117; 110; 116; 32; 83; 101; 108; 101; 99; 116; 111; 114; 32; 67; 104; 101; 99; 107; 115; 117; 109; 10; 32; 32; 32; 59; 32; 32; 32; 32; 32; 32; 32; 32; 32; 32; 32; 32; 78; 111; 110; 101; 32; 58; 32; 115; 101; 108; 101; 99; 116; 32; 97; 108; 108; 32; 110; 111; 110; 45; 122; 101; 114; 111; 10; 32; 32; 32; 59; 32; 10; 32; 32; 32; 59; 32; 87; 65; 82; 78; 73; 78; 71; 58; 10; 32; 32; 32; 59; 32; 87; 65; 82; 78; 73; 78; 71; 58; 32; 84; 104; 101; 32; 115; 117; 109; 32; 111; 102; 32; 101; 113; 117; 105; 116; 121; 32; 116; 114; 97; 110; 115; 97; 99; 116; 105; 111; 110; 32; 105; 115; 32; 122; 101; 114; 111; 32; 119; 105; 116; 104; 111; 117; 116; 32; 101; 113; 117; 105; 116; 121; 32; 97; 99; 99; 111; 117; 110; 116; 46; 10; 32; 32; 32; 59; 32; 87; 65; 82; 78; 73; 78; 71; 58; 32; 84; 104; 101; 114; 101; 102; 111; 114; 101; 32; 116; 104; 101; 114; 101; 32; 105; 115; 32; 110; 111; 32; 101; 113; 117; 105; 116; 121; 32; 112; 111; 115; 116; 105; 110; 103; 32; 114; 111; 119; 44; 32; 97; 110; 100; 32; 116; 104; 105; 115; 32; 105; 115; 32; 112; 114; 111; 98; 97; 98; 108; 121; 32; 110; 111; 116; 32; 114; 105; 103; 104; 116; 46; 10; 32; 32; 32; 59; 32; 87; 65; 82; 78; 73; 78; 71; 58; 32; 73; 115; 32; 116; 104; 101; 32; 97; 99; 99; 111; 117; 110; 116; 32; 115; 101; 108; 101; 99; 116; 111; 114; 32; 99; 111; 114; 114; 101; 99; 116; 32; 102; 111; 114; 32; 116; 104; 105; 115; 32; 69; 113; 117; 105; 116; 121; 32; 101; 120; 112; 111; 114; 116; 63; 10; 32; 32; 32; 59; 32; 87; 65; 82; 78; 73; 78; 71; 58; 10; 32; 32; 32; 97; 58; 98; 32; 32; 51; 10; 32; 32; 32; 97; 58; 99; 32; 32; 50; 10; 32; 32; 32; 120; 32; 32; 45; 53; 10; 10; 49; 57; 55; 48; 45; 48; 49; 45; 48; 49; 84; 48; 48; 58; 48; 48; 58; 48; 48; 46; 48; 48; 48; 48; 48; 48; 48; 51; 43; 48; 48; 58; 48; 48; 32; 39; 69; 113; 117; 105; 116; 121; 32; 102; 111; 114; 32; 69; 58; 32; 108; 97; 115; 116; 32; 116; 120; 110; 32; 40; 117; 117; 105; 100; 41; 58; 32; 51; 51; 51; 51; 51; 51; 51; 51; 45; 51; 51; 51; 51; 45; 52; 51; 51; 51; 45; 56; 51; 51; 51; 45; 51; 51; 51; 51; 51; 51; 51; 51; 51; 51; 51; 51; 10; 32; 32; 32; 59; 32; 84; 120; 110; 32; 83; 101; 116; 32; 67; 104; 101; 99; 107; 115; 117; 109; 10; 32; 32; 32; 59; 32; 32; 32; 32; 32; 32; 32; 32; 32; 83; 72; 65; 45; 50; 53; 54; 32; 58; 32; 102; 48; 52; 97; 51; 57; 53; 100; 53; 101; 52; 57; 55; 102; 50; 98; 97; 55; 55; 98; 100; 49; 55; 99; 50; 49; 98; 100; 49; 54; 55; 99; 56; 98; 51; 98; 51; 102; 57; 52; 51; 55; 57; 101; 99; 101; 102; 52; 53; 50; 98; 99; 57; 100; 98; 52; 52; 48; 100; 48; 102; 98; 98; 51; 10; 32; 32; 32; 59; 32; 32; 32; 32; 32; 32; 32; 32; 83; 101; 116; 32; 115; 105; 122; 101; 32; 58; 32; 51; 10; 32; 32; 32; 59; 32; 10; 32; 32; 32; 59; 32; 65; 99; 99; 111; 117; 110; 116; 32; 83; 101; 108; 101; 99; 116; 111; 114; 32; 67; 104; 101; 99; 107; 115; 117; 109; 10; 32; 32; 32; 59; 32; 32; 32; 32; 32; 32; 32; 32; 32; 32; 32; 32; 78; 111; 110; 101; 32; 58; 32; 115; 101; 108; 101; 99; 116; 32; 97; 108; 108; 32; 110; 111; 110; 45; 122; 101; 114; 111; 10; 32; 32; 32; 59; 32; 10; 32; 32; 32; 59; 32; 87; 65; 82; 78; 73; 78; 71; 58; 10; 32; 32; 32; 59; 32; 87; 65; 82; 78; 73; 78; 71; 58; 32; 84; 104; 101; 32; 115; 117; 109; 32; 111; 102; 32; 101; 113; 117; 105; 116; 121; 32; 116; 114; 97; 110; 115; 97; 99; 116; 105; 111; 110; 32; 105; 115; 32; 122; 101; 114; 111; 32; 119; 105; 116; 104; 111; 117; 116; 32; 101; 113; 117; 105; 116; 121; 32; 97; 99; 99; 111; 117; 110; 116; 46; 10; 32; 32; 32; 59; 32; 87; 65; 82; 78; 73; 78; 71; 58; 32; 84; 104; 101; 114; 101; 102; 111; 114; 101; 32; 116; 104; 101; 114; 101; 32; 105; 115; 32; 110; 111; 32; 101; 113; 117; 105; 116; 121; 32; 112; 111; 115; 116; 105; 110; 103; 32; 114; 111; 119; 44; 32; 97; 110; 100; 32; 116; 104; 105; 115; 32; 105; 115; 32; 112; 114; 111; 98; 97; 98; 108; 121; 32; 110; 111; 116; 32; 114; 105; 103; 104; 116; 46; 10; 32; 32; 32; 59; 32; 87; 65; 82; 78; 73; 78; 71; 58; 32; 73; 115; 32; 116; 104; 101; 32; 97; 99; 99; 111; 117; 110; 116; 32; 115; 101; 108; 101; 99; 116; 111; 114; 32; 99; 111; 114; 114; 101; 99; 116; 32; 102; 111; 114; 32; 116; 104; 105; 115; 32; 69; 113; 117; 105; 116; 121; 32; 101; 120; 112; 111; 114; 116; 63; 10; 32; 32; 32; 59; 32; 87; 65; 82; 78; 73; 78; 71; 58; 10; 32; 32; 32; 101; 32; 32; 45; 49; 46; 53; 48; 32; 69; 10; 32; 32; 32; 120; 32; 32; 49; 46; 53; 32; 69; 10; 10]%N.
 
 Definition t02_ex_obs (md : list (list (list N))) (o : option (list eq_txn)) :=
-  option_map (fun es => (export_wf md es, amounts_fit es, forallb eq_desc_plain es, print_equity md es)) o.
+  option_map (fun es => (export_wf md default_warn_lines es, amounts_fit es, forallb eq_desc_plain es,
+                         print_equity md default_warn_lines es)) o.
 
 Lemma t02_example :
   txns_wf t02_ex_ts /\ forallb src_txn_ok t02_ex_ts = true /\ eq_acct_ok c10_eo = true
@@ -574,7 +579,7 @@ Qed.
 (* the example texts are accepted by the model loader and yield the equity transactions *)
 Lemma t02_example_loaded :
   match equity (fun _ => true) c10_eo (Some c10_ex_sel) t02_ex_ts with
-  | Some es => load_journal (mkCfg 0 0) t02_ex_text_sel = Ok (sort_by jtxn_leb (map (eq_jtxn t02_ex_md_sel) es))
+  | Some es => load_journal (mkCfg 0 0) t02_ex_text_sel = Ok (sort_by jtxn_leb (map (eq_jtxn t02_ex_md_sel default_warn_lines) es))
   | None => False
   end.
 Proof. vm_compute. reflexivity. Qed.
@@ -587,7 +592,7 @@ Proof. vm_compute. reflexivity. Qed.
 Definition t02_bad_eqa : list (list N) := [[97; 33; 98]%N].
 Lemma eq_account_ok_insufficient :
   eq_account_ok t02_bad_eqa = true /\ eq_acct_ok t02_bad_eqa = false
-  /\ option_map (fun es => (amounts_fit es, parse_journal (mkCfg 0 0) (print_equity [] es)))
+  /\ option_map (fun es => (amounts_fit es, parse_journal (mkCfg 0 0) (print_equity [] default_warn_lines es)))
        (equity (fun _ => true) t02_bad_eqa (Some c10_ex_sel) t02_ex_ts) = Some (true, Err E_syntax).
 Proof. vm_compute. repeat split; reflexivity. Qed.
 
@@ -598,8 +603,97 @@ Definition t02_subminute_export : list eq_txn :=
       [mkEqPost [[97]%N] [] (mkDec 1 0)] (Some (mkEqPost [[69]%N] [] (mkDec (-1) 0))) ].
 Lemma subminute_export_refuted :
   forallb (fun e => forallb eq_post_wf (eq_all_posts e)) t02_subminute_export = true
-  /\ parse_journal (mkCfg 0 0) (print_equity [] t02_subminute_export) = Err E_syntax.
+  /\ parse_journal (mkCfg 0 0) (print_equity [] default_warn_lines t02_subminute_export) = Err E_syntax.
 Proof. vm_compute. split; reflexivity. Qed.
+
+(* ------------------------------------------------------------------ the wording of the comments is immaterial *)
+(* today's five warning lines are well formed *)
+Lemma default_warn_wf : warn_wf default_warn_lines = true.
+Proof. vm_compute. reflexivity. Qed.
+
+Lemma eqt_insert_by_map {A B} (f : A -> B) (leb1 : A -> A -> bool) (leb2 : B -> B -> bool) x l :
+  (forall y, leb1 x y = leb2 (f x) (f y)) ->
+  map f (insert_by leb1 x l) = insert_by leb2 (f x) (map f l).
+Proof.
+  intro H. induction l as [|y l IH]; [reflexivity|]. cbn [insert_by map].
+  rewrite <- (H y). destruct (leb1 x y); [reflexivity|]. cbn [map]. rewrite IH. reflexivity.
+Qed.
+
+Lemma eqt_sort_by_map {A B} (f : A -> B) (leb1 : A -> A -> bool) (leb2 : B -> B -> bool) l :
+  (forall x y, leb1 x y = leb2 (f x) (f y)) ->
+  map f (sort_by leb1 l) = sort_by leb2 (map f l).
+Proof.
+  intro H. induction l as [|x l IH]; [reflexivity|]. cbn [sort_by map].
+  rewrite (eqt_insert_by_map f leb1 leb2 x _ (H x)), IH. reflexivity.
+Qed.
+
+(* the canonical order of loaded transactions does not read the comments (TxnHeader::cmp:
+   instant, code, description, uuid) *)
+Lemma jtxn_leb_no_comments a b : jtxn_leb a b = jtxn_leb (jt_no_comments a) (jt_no_comments b).
+Proof. reflexivity. Qed.
+
+Lemma sort_no_comments ts :
+  map jt_no_comments (sort_by jtxn_leb ts) = sort_by jtxn_leb (map jt_no_comments ts).
+Proof. apply eqt_sort_by_map. exact jtxn_leb_no_comments. Qed.
+
+(* md and warn occur in the loaded transaction in the transaction comments only *)
+Lemma eq_jtxn_no_comments md warn md' warn' e :
+  jt_no_comments (eq_jtxn md warn e) = jt_no_comments (eq_jtxn md' warn' e).
+Proof. reflexivity. Qed.
+
+Lemma eq_jtxn_comments md warn e : h_comments (jt_hdr (eq_jtxn md warn e)) = eq_comments md warn e.
+Proof. reflexivity. Qed.
+
+Lemma jtxns_bposts_no_comments ts : jtxns_bposts (map jt_no_comments ts) = jtxns_bposts ts.
+Proof.
+  unfold jtxns_bposts. induction ts as [|t ts IH]; [reflexivity|]. cbn [map flat_map]. rewrite IH. reflexivity.
+Qed.
+
+(* the export text written with ANY two choices of well-formed metadata lines and warning lines
+   loads to the same transactions up to the transaction comments: same order, same time stamps,
+   descriptions, postings (accounts, amounts, commodities) - in particular the same balances *)
+Theorem warn_irrelevant cfg md warn md' warn' es : es <> [] ->
+  export_wf md warn es = true -> export_wf md' warn' es = true ->
+  (forall e, In e es -> accept_txn (eq_raw_txn e) = Ok (map eq_posting (eq_all_posts e))) ->
+  exists jts jts', load_journal cfg (print_equity md warn es) = Ok jts
+    /\ load_journal cfg (print_equity md' warn' es) = Ok jts'
+    /\ map jt_no_comments jts = map jt_no_comments jts'
+    /\ jtxns_bposts jts = jtxns_bposts jts'.
+Proof.
+  intros Hne Hwf Hwf' Hacc.
+  exists (sort_by jtxn_leb (map (eq_jtxn md warn) es)), (sort_by jtxn_leb (map (eq_jtxn md' warn') es)).
+  split; [apply load_export; assumption|]. split; [apply load_export; assumption|].
+  assert (E : map jt_no_comments (sort_by jtxn_leb (map (eq_jtxn md warn) es))
+              = map jt_no_comments (sort_by jtxn_leb (map (eq_jtxn md' warn') es))).
+  { rewrite !sort_no_comments, !map_map. reflexivity. }
+  split; [exact E|].
+  rewrite <- (jtxns_bposts_no_comments (sort_by jtxn_leb (map (eq_jtxn md warn) es))), E.
+  apply jtxns_bposts_no_comments.
+Qed.
+
+(* witness: the example export with warnings (t02_ex_text_all), written with another wording of the
+   five lines and without metadata lines: a different text, well formed, accepted by the loader,
+   and the same transactions up to the transaction comments *)
+Definition t02_ex_warn_alt : list (list N) :=
+  [ [87; 65; 82; 78; 73; 78; 71; 58]%N;
+    [87; 65; 82; 78; 73; 78; 71; 58; 32; 84; 104; 101; 32; 112; 111; 115; 116; 105; 110; 103; 115; 32; 111; 102; 32; 116; 104; 105; 115; 32; 101; 113; 117; 105; 116; 121; 32; 116; 114; 97; 110; 115; 97; 99; 116; 105; 111; 110; 32; 115; 117; 109; 32; 117; 112; 32; 116; 111; 32; 122; 101; 114; 111; 32; 119; 105; 116; 104; 111; 117; 116; 32; 101; 113; 117; 105; 116; 121; 32; 97; 99; 99; 111; 117; 110; 116; 46]%N;
+    [87; 65; 82; 78; 73; 78; 71; 58; 32; 72; 101; 110; 99; 101; 32; 116; 104; 101; 114; 101; 32; 105; 115; 32; 110; 111; 32; 112; 111; 115; 116; 105; 110; 103; 32; 114; 111; 119; 32; 102; 111; 114; 32; 101; 113; 117; 105; 116; 121; 32; 97; 99; 99; 111; 117; 110; 116; 44; 32; 119; 104; 105; 99; 104; 32; 105; 115; 32; 112; 114; 111; 98; 97; 98; 108; 121; 32; 110; 111; 116; 32; 105; 110; 116; 101; 110; 100; 101; 100; 46]%N;
+    [87; 65; 82; 78; 73; 78; 71; 58; 32; 80; 108; 101; 97; 115; 101; 32; 99; 104; 101; 99; 107; 32; 116; 104; 101; 32; 97; 99; 99; 111; 117; 110; 116; 32; 115; 101; 108; 101; 99; 116; 111; 114; 32; 111; 102; 32; 116; 104; 105; 115; 32; 69; 113; 117; 105; 116; 121; 32; 101; 120; 112; 111; 114; 116; 46]%N;
+    [87; 65; 82; 78; 73; 78; 71; 58]%N ].
+Definition t02_ex_res_nc (r : res (list jtxn)) : option (list jtxn) :=
+  match r with Ok jts => Some (map jt_no_comments jts) | Err _ => None end.
+Lemma t02_example_reworded :
+  warn_wf t02_ex_warn_alt = true
+  /\ match equity (fun _ => true) c10_eo None t02_ex_ts with
+     | Some es =>
+         export_wf [] t02_ex_warn_alt es = true
+         /\ list_eqb N.eqb (print_equity [] t02_ex_warn_alt es) t02_ex_text_all = false
+         /\ t02_ex_res_nc (load_journal (mkCfg 0 0) (print_equity [] t02_ex_warn_alt es))
+            = t02_ex_res_nc (load_journal (mkCfg 0 0) t02_ex_text_all)
+         /\ t02_ex_res_nc (load_journal (mkCfg 0 0) t02_ex_text_all) <> None
+     | None => False
+     end.
+Proof. vm_compute. repeat split; try reflexivity. discriminate. Qed.
 
 (* ------------------------------------------------------------------ the oracle is sound *)
 Lemma unit_plain_eqb_true a b : unit_plain_eqb a b = true -> a = b.
@@ -625,7 +719,7 @@ Proof.
   destruct a as [ah ap al], b as [bh bp bl]. cbn in *. subst. destruct al, bl; try discriminate. reflexivity.
 Qed.
 
-Theorem text_reads_as_sound cfg md es text : text_reads_as cfg md es text = true -> TextReadsAs cfg md es text.
+Theorem text_reads_as_sound cfg md warn es text : text_reads_as cfg md warn es text = true -> TextReadsAs cfg md warn es text.
 Proof.
   unfold text_reads_as, TextReadsAs. destruct es as [|e es'].
   - destruct text; [reflexivity|discriminate].
@@ -634,7 +728,7 @@ Proof.
 Qed.
 
 (* what the model text satisfies by the theorems: the oracle's statement *)
-Theorem print_equity_reads cfg md es : export_wf md es = true -> TextReadsAs cfg md es (print_equity md es).
+Theorem print_equity_reads cfg md warn es : export_wf md warn es = true -> TextReadsAs cfg md warn es (print_equity md warn es).
 Proof.
   intro H. unfold TextReadsAs. destruct es as [|e es'] eqn:E; [reflexivity|].
   apply parse_export; [discriminate|exact H].
